@@ -72,7 +72,7 @@ def StepProg (h : Hdr) (n : Nat) (c : Ctx) (out : Bytes) : Step → Prop
   | .cont c' out' fin' => fin' = false ∧ out'.length ≤ n ∧ mu h n c' out' < mu h n c out
 
 /-- the dictionary handed to the decoder at the end of chunk `k` is the one the format prescribes -/
-theorem Mid.dictUsed {ud n dv sk T c k ch} (s : Mid H D f h ud n dv sk T c k ch)
+theorem Mid.dictUsed {ud n dv sk T c k ch} (s : Mid H D f h tr ud n dv sk T c k ch)
     (hpa : ud = false → T.length + c.dc.length < n) (hz : h.compType ≠ 0) :
     (if ud = true then c.dict else none) = dictFor D f h k := by
   cases hu : ud with
@@ -97,7 +97,7 @@ theorem validateChunk_one (c' : Ctx) (ch : Chunk) (st d : Bytes) (hc : c'.chunkH
   rw [hc]; simp only; rw [hH]; simp only; rw [hdig]; simp
 
 /-- on a well-formed file the end of a chunk succeeds -/
-theorem Mid.endOk {ud n dv sk T c k ch} (s : Mid H D f h ud n dv sk T c k ch) (wf : WF H D f h)
+theorem Mid.endOk {ud n dv sk T c k ch} (s : Mid H D f h tr ud n dv sk T c k ch) (wf : WF H D f h)
     (hloc : c.dataLoc = ch.compLen) (hpa : ud = false → T.length + c.dc.length < n) :
     ∃ c2, endDchunk H D c k ch ud = .ok c2 ∧ (c2.data.isEmpty = true ∨ c2.data = c.data) ∧ c2.pos = c.pos ∧
       c2.dataEof = c.dataEof ∧ c2.dataIdx = (if k + 1 < h.chunks.length then some (k + 1) else none) := by
@@ -132,7 +132,7 @@ theorem Mid.endOk {ud n dv sk T c k ch} (s : Mid H D f h ud n dv sk T c k ch) (w
 
 
 /-- on a well-formed file a read inside a chunk delivers everything asked for -/
-theorem Mid.readProg {ud n dv sk Tp out c k ch} (s : Mid H D f h ud n dv sk (Tp ++ out) c k ch) (wf : WF H D f h)
+theorem Mid.readProg {ud n dv sk Tp out c k ch} (s : Mid H D f h tr ud n dv sk (Tp ++ out) c k ch) (wf : WF H D f h)
     (hn : 0 < n) (hne : c.dataLoc ≠ ch.compLen) (hout : out.length ≤ n) :
     StepProg h n c out (stepRead f n c ch out) := by
   unfold stepRead
@@ -157,8 +157,14 @@ theorem Mid.readProg {ud n dv sk Tp out c k ch} (s : Mid H D f h ud n dv sk (Tp 
     rcases s.fhash with h4 | hfh
     · exact h1 h4
     · rw [updFull_eq] at h2
+      have hsome : c.fullHash.isSome = true := by
+        cases tr with
+        | true => simp only [↓reduceIte] at hfh; rw [hfh]; rfl
+        | false => simpa using hfh
       have : (if flag4 { c with pos := c.pos + src.length } = true then c.fullHash else hashUpd c.fullHash src).isNone = false := by
-        rw [hfh]; split <;> rfl
+        cases hx : c.fullHash with
+        | none => rw [hx] at hsome; cases hsome
+        | some x => split <;> rfl
       change (if flag4 { c with pos := c.pos + src.length } = true then c.fullHash else hashUpd c.fullHash src).isNone = true at h2
       rw [this] at h2; cases h2
   rw [if_neg hnone]
@@ -175,7 +181,7 @@ theorem Mid.readProg {ud n dv sk Tp out c k ch} (s : Mid H D f h ud n dv sk (Tp 
 
 theorem tail_prog {ud n dv sk Tp out' c} (wf : WF H D f h) (hn : 0 < n)
     (hpa : PA (h := h) ud n sk Tp) (hdc : c.dc = []) (hlt : out'.length < n)
-    (s1 : SI H D f h ud n dv sk (Tp ++ out') c) :
+    (s1 : SI H D f h tr ud n dv sk (Tp ++ out') c) :
     StepProg h n c out' (stepTail H D f n ud c out' false) := by
   unfold stepTail
   by_cases h4 : c.dataEof = true
@@ -243,7 +249,7 @@ theorem tail_prog {ud n dv sk Tp out' c} (wf : WF H D f h) (hn : 0 < n)
 
 /-- **one iteration on a well-formed file**: no error, and if the loop goes on the measure has decreased -/
 theorem step_prog {ud n dv sk Tp out c} (wf : WF H D f h) (hn : 0 < n)
-    (hpa : PA (h := h) ud n sk Tp) (hout : out.length ≤ n) (s : SI H D f h ud n dv sk (Tp ++ out) c) :
+    (hpa : PA (h := h) ud n sk Tp) (hout : out.length ≤ n) (s : SI H D f h tr ud n dv sk (Tp ++ out) c) :
     StepProg h n c out (step H D f n ud c out false) := by
   rw [step_tail]
   by_cases h1 : out.length ≥ n
@@ -254,7 +260,7 @@ theorem step_prog {ud n dv sk Tp out c} (wf : WF H D f h) (hn : 0 < n)
   rw [if_neg (by simp [herr])]
   generalize hm : min (n - out.length) c.dc.length = m
   have hmle : m ≤ n - out.length := by rw [← hm]; exact Nat.min_le_left _ _
-  have s1 : SI H D f h ud n dv sk (Tp ++ (out ++ c.dc.take m)) { c with dc := c.dc.drop m } := by
+  have s1 : SI H D f h tr ud n dv sk (Tp ++ (out ++ c.dc.take m)) { c with dc := c.dc.drop m } := by
     rw [← List.append_assoc]; exact s.handout m
   have hol : (out ++ c.dc.take m).length = out.length + m := by
     simp only [List.length_append, List.length_take]
@@ -301,7 +307,7 @@ def CallProg (n : Nat) (r : RdOut × Ctx) : Prop := 0 ≤ r.1.ret ∧ r.1.bytes.
 /-- **the loop on a well-formed file** ends without error whenever the fuel is at least the measure -/
 theorem readLoop_prog {ud n dv sk Tp} (wf : WF H D f h) (hn : 0 < n) (hpa : PA (h := h) ud n sk Tp) :
     ∀ (fuel : Nat) (c : Ctx) (out : Bytes), mu h n c out < fuel → out.length ≤ n →
-      SI H D f h ud n dv sk (Tp ++ out) c → CallProg n (readLoop H D f n ud fuel c out false)
+      SI H D f h tr ud n dv sk (Tp ++ out) c → CallProg n (readLoop H D f n ud fuel c out false)
   | 0, _, _, hf, _, _ => by omega
   | fuel + 1, c, out, hf, hout, s => by
     unfold readLoop
@@ -326,7 +332,7 @@ theorem total_le_len (wf : WF H D f h) : total h ≤ f.length := by
   omega
 
 /-- the measure at the start of a call is within the fuel the model gives the loop -/
-theorem mu_lt_fuel {ud n dv sk T c} (wf : WF H D f h) (s : SI H D f h ud n dv sk T c) : mu h n c [] < fuelFor f c n := by
+theorem mu_lt_fuel {ud n dv sk T c} (wf : WF H D f h) (s : SI H D f h tr ud n dv sk T c) : mu h n c [] < fuelFor f c n := by
   have ht := total_le_len wf
   have hd : (if c.data.isEmpty = true then 0 else 1) ≤ 1 := by split <;> omega
   unfold fuelFor
@@ -382,7 +388,7 @@ theorem import_true (wf : WF H D f h) (d : Chunk) (hd : h.chunks.head? = some d)
     simp [s.base.noerr, s.base.started, Nat.ne_of_gt hlen]
   rw [e1]
   have hpa : PA (h := h) false d.len [] [] := fun _ => ⟨rfl, rfl, d, hd, rfl⟩
-  have hsi : SI H D f h false d.len none [] ([] ++ []) c := by simpa using SI.start (n := d.len) s
+  have hsi : SI H D f h true false d.len none [] ([] ++ []) c := by simpa using SI.start (n := d.len) s
   have hl := readLoop_SI (H := H) (D := D) (f := f) (dv := none) wf.run hlen hpa (fuelFor f c d.len) c [] false hsi
   have hg := readLoop_prog (dv := none) wf hlen hpa (fuelFor f c d.len) c [] (mu_lt_fuel wf hsi) (by simp) hsi
   revert hl hg
@@ -459,7 +465,7 @@ theorem compRead_prog (wf : WF H D f h) (T : Bytes) (c : Ctx) (n : Nat)
     simp only
     rcases himp with hf | ⟨_, dv, sk, s1, hdv, hside⟩
     · cases hf
-    · have hsi : SI H D f h true n dv sk ([] ++ []) c1 := by simpa using s1.retag
+    · have hsi : SI H D f h true true n dv sk ([] ++ []) c1 := by simpa using s1.retag
       exact readLoop_prog wf hn (fun hu => by cases hu) (fuelFor f c1 n) c1 [] (mu_lt_fuel wf hsi) (by simp) hsi
   · cases hd : h.chunks.head? with
     | none =>
@@ -480,7 +486,7 @@ theorem compRead_prog (wf : WF H D f h) (T : Bytes) (c : Ctx) (n : Nat)
         | none => cases this
         | some x => cases hnone
       rw [if_neg hno]
-      have hsi : SI H D f h true n dv sk (T ++ []) c := by simpa using s.retag
+      have hsi : SI H D f h true true n dv sk (T ++ []) c := by simpa using s.retag
       exact readLoop_prog wf hn (fun hu => by cases hu) (fuelFor f c n) c [] (mu_lt_fuel wf hsi) (by simp) hsi
 
 
